@@ -473,3 +473,112 @@ Proof.
       with ((- ((if s then -1 else 1) * (Z.pos q * 2 ^ t))) * 2 ^ (- (t - 53 + dig q))) by lia.
     rewrite Z.div_mul by lia. lia.
 Qed.
+
+(* ---- representable positive integers: odd part times a power of two ---- *)
+Fixpoint odd_part (p : positive) : positive * Z :=
+  match p with
+  | xO p' => let '(q, j) := odd_part p' in (q, j + 1)
+  | _ => (p, 0)
+  end.
+
+Lemma odd_part_spec p : let '(q, j) := odd_part p in
+  0 <= j /\ Zpos p = Zpos q * 2 ^ j /\ Z.odd (Zpos q) = true.
+Proof.
+  induction p as [p IH|p IH|]; cbn [odd_part].
+  - split; [lia|]. split; [lia|reflexivity].
+  - destruct (odd_part p) as [q j]. destruct IH as [Hj [Hp Ho]].
+    split; [lia|]. split; [|exact Ho].
+    change (Z.pos p~0) with (2 * Z.pos p). rewrite Hp, Z.pow_add_r by lia. lia.
+  - split; [lia|]. split; [lia|reflexivity].
+Qed.
+
+(* the decidable hypothesis: at most 53 significant bits *)
+Definition repr53b (p : positive) : bool := dig (fst (odd_part p)) <=? 53.
+
+Lemma dig_le_of_lt p k : 0 <= k -> Zpos p < 2 ^ k -> dig p <= k.
+Proof.
+  intros Hk H. pose proof (dig_bounds p) as [B _]. pose proof (dig_pos p).
+  destruct (Z_le_gt_dec (dig p) k) as [L|G]; [exact L|exfalso].
+  assert (2 ^ k <= 2 ^ (dig p - 1)) by (apply Z.pow_le_mono_r; lia). lia.
+Qed.
+
+Lemma dig_mono p q : Zpos p <= Zpos q -> dig p <= dig q.
+Proof.
+  intros H. pose proof (dig_bounds q) as [_ B]. apply dig_le_of_lt; [pose proof (dig_pos q); lia|lia].
+Qed.
+
+Lemma odd_part_le p : Zpos (fst (odd_part p)) <= Zpos p.
+Proof.
+  pose proof (odd_part_spec p) as S. destruct (odd_part p) as [q j]. destruct S as [Hj [Hp _]].
+  cbn [fst]. pose proof (pow2_pos j Hj). nia.
+Qed.
+
+Lemma repr53b_of_lt p : Zpos p < 2 ^ 53 -> repr53b p = true.
+Proof.
+  intros H. unfold repr53b. apply Z.leb_le. apply dig_le_of_lt; [lia|].
+  pose proof (odd_part_le p). lia.
+Qed.
+
+(* an odd number times 2^j that is a multiple of 2^k has j >= k *)
+Lemma odd_pow_div q j a k : Z.odd q = true -> 0 <= j -> 0 <= k -> q * 2 ^ j = a * 2 ^ k -> k <= j.
+Proof.
+  intros Ho Hj Hk E. destruct (Z_le_gt_dec k j) as [L|G]; [exact L|exfalso].
+  replace k with (j + (k - j)) in E by lia. rewrite Z.pow_add_r in E by lia.
+  pose proof (pow2_pos j Hj).
+  assert (E2 : q = a * 2 ^ (k - j)) by nia.
+  replace (k - j) with (1 + (k - j - 1)) in E2 by lia. rewrite Z.pow_add_r in E2 by lia.
+  rewrite E2 in Ho. replace (a * (2 ^ 1 * 2 ^ (k - j - 1))) with (2 * (a * 2 ^ (k - j - 1))) in Ho by (change (2 ^ 1) with 2; lia).
+  rewrite Z.odd_mul in Ho. discriminate.
+Qed.
+
+Lemma normal_scale s q j : 0 <= j -> dig q + j <= 53 -> normal s (Z.to_pos (Zpos q * 2 ^ j)) 0 = normal s q j.
+Proof.
+  intros Hj H. pose proof (dig_pos q). pose proof (pow2_pos j Hj).
+  unfold normal. rewrite dig_shift by exact Hj. f_equal; [|lia].
+  f_equal. rewrite Z2Pos.id by nia. rewrite <- Z.mul_assoc, <- Z.pow_add_r by lia. f_equal. f_equal. lia.
+Qed.
+
+(* float(int) of a representable positive integer *)
+Lemma round_odd_part s p : repr53b p = true -> dig p <= 1024 ->
+  binary_round 53 1024 s p 0 = normal s (fst (odd_part p)) (snd (odd_part p)).
+Proof.
+  intros R B. unfold repr53b in R. apply Z.leb_le in R.
+  pose proof (odd_part_spec p) as S. destruct (odd_part p) as [q j]. destruct S as [Hj [Hp _]]. cbn [fst snd] in *.
+  assert (E : p = Z.to_pos (Zpos q * 2 ^ j)) by (rewrite <- Hp; reflexivity).
+  rewrite E at 1. apply round_normal; try assumption.
+  rewrite <- (dig_shift q j Hj), <- E. lia.
+Qed.
+
+(* float() of [sign] ASCII digits *)
+Lemma float_of_signed_ascii_digits sg ds : (sg = [] \/ sg = [43%N] \/ sg = [45%N]) ->
+  forallb c_digit ds = true -> ds <> [] ->
+  py_float_of_str (sg ++ ds) =
+  Some (f_of_decimal (beq sg [45%N]) (dvalN ds 0) (Z.of_nat (length ds)) 0).
+Proof.
+  intros Hs H Hne. destruct Hs as [->|[->| ->]].
+  - apply float_of_ascii_digits; assumption.
+  - assert (Hlow : forallb (fun c => (c <? 127)%N) (43%N :: ds) = true).
+    { cbn [forallb]. rewrite forallb_forall in *. apply andb_true_iff. split; [reflexivity|].
+      rewrite forallb_forall. intros x Hx. specialize (H x Hx). unfold c_digit in H. lia. }
+    assert (NC : forallb nchar (43%N :: ds) = true).
+    { cbn [forallb]. apply andb_true_iff. split; [reflexivity|]. rewrite forallb_forall in *. intros x Hx.
+      unfold nchar. rewrite (H x Hx). apply orb_true_r. }
+    cbn [app]. unfold py_float_of_str. rewrite (to_ascii_low _ Hlow), (strip_us_id _ 0%N NC) by lia. rewrite (c_strip_id _ NC).
+    replace (43 =? 43)%N with true by reflexivity.
+    exact (parse_unsigned_num [] [] ds false eq_refl (or_introl eq_refl) H Hne).
+  - assert (Hlow : forallb (fun c => (c <? 127)%N) (45%N :: ds) = true).
+    { cbn [forallb]. apply andb_true_iff. split; [reflexivity|].
+      rewrite forallb_forall in *. intros x Hx. specialize (H x Hx). unfold c_digit in H. lia. }
+    assert (NC : forallb nchar (45%N :: ds) = true).
+    { cbn [forallb]. apply andb_true_iff. split; [reflexivity|]. rewrite forallb_forall in *. intros x Hx.
+      unfold nchar. rewrite (H x Hx). apply orb_true_r. }
+    cbn [app]. unfold py_float_of_str. rewrite (to_ascii_low _ Hlow), (strip_us_id _ 0%N NC) by lia. rewrite (c_strip_id _ NC).
+    replace (45 =? 43)%N with false by reflexivity. replace (45 =? 45)%N with true by reflexivity.
+    exact (parse_unsigned_num [] [] ds true eq_refl (or_introl eq_refl) H Hne).
+Qed.
+
+Lemma c_digit_is_digit ds : forallb c_digit ds = true -> digits ds = true.
+Proof.
+  unfold digits. intros H. rewrite forallb_forall in *. intros x Hx. specialize (H x Hx).
+  unfold is_digit. rewrite (digit_val_ascii x H). reflexivity.
+Qed.
